@@ -126,4 +126,13 @@ def collectItem (ex : List Exit) (item : Nat) : List PathUse → Option (List (N
     | some false, some es => some es
     | _, _ => none
 
+/-- type checking every item of a program (item name, path expressions of its
+body): all collected edges, or `none` when some resolution fails -/
+def collectProg (ex : List Exit) : List (Nat × List PathUse) → Option (List (Nat × Nat))
+  | [] => some []
+  | (item, uses) :: rest =>
+    match collectItem ex item uses, collectProg ex rest with
+    | some a, some b => some (a ++ b)
+    | _, _ => none
+
 end RotoV.TarjanEdges
